@@ -340,10 +340,22 @@ inductive FStep where
   | idx (key : String)
 deriving Repr
 
-structure FField where
+/-- `name path conv` of a replacement field: `0.attr[key]!r` -/
+structure FRef where
   name : String
   path : List FStep
   conv : Option Char
+deriving Repr
+
+/-- a piece of a format spec: literal text or a nested replacement field (which has no spec of its own) -/
+inductive SPiece where
+  | lit (s : String)
+  | ref (r : FRef)
+deriving Repr
+
+structure FField where
+  ref : FRef
+  spec : List SPiece      -- `[]` when the field has no `:spec`
 deriving Repr
 
 inductive FPiece where
@@ -371,8 +383,8 @@ def parsePath : Nat → List Char → Option (List FStep)
     | _ => Option.none
   | _, _ => Option.none
 
-/-- Parse the inside of `{…}` (no braces inside): `name path (!r|!s)?` -/
-def parseField (body : List Char) : Option FField :=
+/-- Parse `name path (!r|!s)?` (no braces, no ':' inside). -/
+def parseRef (body : List Char) : Option FRef :=
   let (main, conv?) : List Char × Option (Option Char) :=
     match body.reverse with
     | c :: '!' :: r => if c == 'r' || c == 's' then (r.reverse, some (some c)) else (body, Option.none)
@@ -380,11 +392,46 @@ def parseField (body : List Char) : Option FField :=
   match conv? with
   | Option.none => Option.none
   | some conv =>
-    if main.contains '!' || main.contains ':' then Option.none
+    if main.contains '!' || main.contains ':' || main.contains '{' || main.contains '}' then Option.none
     else
       let name := main.takeWhile isWordChar
       let rest := main.dropWhile isWordChar
       (parsePath (rest.length + 1) rest).map fun p => { name := String.ofList name, path := p, conv := conv }
+
+/-- Parse a format spec: literal characters and nested `{ref}` fields without a spec of their own. -/
+def parseSpec : Nat → List Char → List Char → Option (List SPiece)
+  | 0, _, _ => Option.none
+  | _, acc, [] => some (if acc.isEmpty then [] else [SPiece.lit (String.ofList acc.reverse)])
+  | fuel + 1, acc, '{' :: rest =>
+    let body := rest.takeWhile (fun c => c != '}' && c != '{')
+    match rest.dropWhile (fun c => c != '}' && c != '{') with
+    | '}' :: rest' =>
+      match parseRef body, parseSpec fuel [] rest' with
+      | some r, some ps =>
+        some ((if acc.isEmpty then [] else [SPiece.lit (String.ofList acc.reverse)]) ++ SPiece.ref r :: ps)
+      | _, _ => Option.none
+    | _ => Option.none
+  | _, _, '}' :: _ => Option.none
+  | fuel + 1, acc, c :: rest => parseSpec fuel (c :: acc) rest
+
+/-- The text of a field up to its matching '}' (nested braces counted), and what follows it. -/
+def splitField : Nat → Nat → List Char → List Char → Option (List Char × List Char)
+  | 0, _, _, _ => Option.none
+  | _, _, _, [] => Option.none
+  | fuel + 1, depth, acc, '{' :: rest => splitField fuel (depth + 1) ('{' :: acc) rest
+  | fuel + 1, depth, acc, '}' :: rest =>
+    if depth == 0 then some (acc.reverse, rest) else splitField fuel (depth - 1) ('}' :: acc) rest
+  | fuel + 1, depth, acc, c :: rest => splitField fuel depth (c :: acc) rest
+
+/-- Parse the inside of a top-level `{…}`: `ref (':' spec)?` -/
+def parseField (body : List Char) : Option FField :=
+  let refPart := body.takeWhile (· != ':')
+  match body.dropWhile (· != ':') with
+  | [] => (parseRef refPart).map fun r => { ref := r, spec := [] }
+  | _ :: specPart =>
+    match parseRef refPart, parseSpec (specPart.length + 1) [] specPart with
+    | some r, some sp => some { ref := r, spec := sp }
+    | _, _ => Option.none
 
 /-- Split a format string into literal text and fields.  `none` = outside the modelled class. -/
 def parseFmt : Nat → List Char → List Char → Option (List FPiece)
@@ -393,14 +440,13 @@ def parseFmt : Nat → List Char → List Char → Option (List FPiece)
   | fuel + 1, acc, '{' :: '{' :: rest => parseFmt fuel ('{' :: acc) rest
   | fuel + 1, acc, '}' :: '}' :: rest => parseFmt fuel ('}' :: acc) rest
   | fuel + 1, acc, '{' :: rest =>
-    let body := rest.takeWhile (fun c => c != '}' && c != '{')
-    match rest.dropWhile (fun c => c != '}' && c != '{') with
-    | '}' :: rest' =>
+    match splitField (rest.length + 1) 0 [] rest with
+    | some (body, rest') =>
       match parseField body, parseFmt fuel [] rest' with
       | some f, some ps =>
         some ((if acc.isEmpty then [] else [FPiece.lit (String.ofList acc.reverse)]) ++ FPiece.field f :: ps)
       | _, _ => Option.none
-    | _ => Option.none
+    | Option.none => Option.none
   | _, _, '}' :: _ => Option.none
   | fuel + 1, acc, c :: rest => parseFmt fuel (c :: acc) rest
 
@@ -434,9 +480,113 @@ def stepIsPrivate : FStep → Bool
   | .attr n => n.startsWith "_"
   | .idx _ => false
 
-/-- `string.Formatter._vformat` driven by `_SafeFormatter.get_field`, for fields without format spec.
-    `auto` mirrors `auto_arg_index`: `some k` = the integer `k`, `none` = `False` (manual numbering seen).
+/-- One replacement field of `string.Formatter._vformat` up to and including `convert_field`:
+    the `auto_arg_index` bookkeeping (`some k` = the integer `k`, `none` = `False`), `_SafeFormatter.get_field`
+    (refusal of underscore attributes when `safe`, then `get_value` and the traversal), the conversion.
     `mapping = none` is `_safe_format` (kwargs = {}), `some m` is `_safe_format_map` (args = ()). -/
+def resolveRef (safe : Bool) (d : HostDesc) (args : List CV) (mapping : Option CV) (r : FRef)
+    (auto : Option Nat) (st : CState) : Except Exc (CV × Option Nat) × CState :=
+  -- `if field_name == '' … elif field_name.isdigit() …` (the WHOLE field name, path included)
+  let numbered : Except Exc (CV × Option Nat) :=
+    if r.name.isEmpty && r.path.isEmpty then
+      match auto with
+      | Option.none => .error "ValueError"
+      | some k => .ok (.int k, some (k + 1))
+    else if allDigits r.name && r.path.isEmpty then
+      match auto with
+      | some (_ + 1) => .error "ValueError"
+      | _ => .ok (.int (digitsToNat r.name), Option.none)
+    else if allDigits r.name then .ok (.int (digitsToNat r.name), auto)
+    else .ok (.str r.name, auto)
+  match numbered with
+  | .error e => (.error e, st)
+  | .ok (key, auto') =>
+    -- `_SafeFormatter.get_field`: refuse underscore attributes before anything is looked up (`safe`)
+    if safe && r.path.any stepIsPrivate then (.error "ParseError", st)
+    else
+      -- `string.Formatter.get_value`: args[key] for ints, kwargs[key] otherwise
+      let first : Except Exc CV :=
+        match key with
+        | .int i =>
+          match args[i.toNat]? with
+          | some v => .ok v
+          | Option.none => .error "IndexError"
+        | k =>
+          match mapping with
+          | Option.none => .error "KeyError"
+          | some m => cvGetitem m k
+      match first with
+      | .error e => (.error e, st)
+      | .ok v =>
+        match walkPath d r.path v st with
+        | (.error e, st') => (.error e, st')
+        | (.ok o, st') =>
+          -- convert_field
+          match r.conv with
+          | Option.none => (.ok (o, auto'), st')
+          | some c =>
+            match (if c == 'r' then cvRepr o else cvStr o) with
+            | .ok t => (.ok (.str t, auto'), st')
+            | .error e => (.error e, st')
+
+/-- `_vformat(format_spec, …, recursion_depth - 1, auto_arg_index)`: the text of the spec and the new counter.
+    A nested field has an empty spec of its own, so it is rendered with `format(obj, '')`. -/
+def renderSpec (safe : Bool) (d : HostDesc) (args : List CV) (mapping : Option CV) :
+    List SPiece → Option Nat → CState → Except Exc (String × Option Nat) × CState
+  | [], auto, st => (.ok ("", auto), st)
+  | .lit s :: rest, auto, st =>
+    match renderSpec safe d args mapping rest auto st with
+    | (.ok (r, a), st') => (.ok (s ++ r, a), st')
+    | (.error e, st') => (.error e, st')
+  | .ref r :: rest, auto, st =>
+    match resolveRef safe d args mapping r auto st with
+    | (.error e, st') => (.error e, st')
+    | (.ok (o, auto'), st') =>
+      match cvStr o with
+      | .error e => (.error e, st')
+      | .ok t =>
+        match renderSpec safe d args mapping rest auto' st' with
+        | (.ok (r', a), st'') => (.ok (t ++ r', a), st'')
+        | (.error e, st'') => (.error e, st'')
+
+def padTo (align : Char) (width : Nat) (t : String) : String :=
+  let n := t.length
+  if width ≤ n then t
+  else
+    let pad := width - n
+    let sp (k : Nat) : String := String.ofList (List.replicate k ' ')
+    if align == '<' then t ++ sp pad
+    else if align == '>' then sp pad ++ t
+    else sp (pad / 2) ++ t ++ sp (pad - pad / 2)
+
+/-- `format(obj, spec)` for the specs of the modelled class: empty, or `[<>^]?[1-9][0-9]?`. -/
+def applySpec (o : CV) (spec : String) : Except Exc String :=
+  if spec.isEmpty then cvStr o
+  else
+    let cs := spec.toList
+    let (align?, ds) : Option Char × List Char :=
+      match cs with
+      | c :: rest => if c == '<' || c == '>' || c == '^' then (some c, rest) else (Option.none, cs)
+      | [] => (Option.none, [])
+    let okWidth := match ds with
+      | [a] => a.isDigit && a != '0'
+      | [a, b] => a.isDigit && a != '0' && b.isDigit
+      | _ => false
+    if !okWidth then .error (scope "format spec")
+    else
+      let w := digitsToNat (String.ofList ds)
+      match o with
+      | .str t => .ok (padTo (align?.getD '<') w t)
+      | .int i => .ok (padTo (align?.getD '>') w (toString i))
+      | .none => .error "TypeError"
+      | .list _ => .error "TypeError"
+      | .tuple _ => .error "TypeError"
+      | .dict _ => .error "TypeError"
+      | .sent _ => .error "TypeError"
+      | .smeth _ _ => .error "TypeError"
+      | _ => .error (scope "format spec on bool/opaque")
+
+/-- `string.Formatter._vformat` over the top-level pieces. -/
 def renderPieces (safe : Bool) (d : HostDesc) (args : List CV) (mapping : Option CV) :
     List FPiece → Option Nat → CState → Except Exc String × CState
   | [], _, st => (.ok "", st)
@@ -445,48 +595,18 @@ def renderPieces (safe : Bool) (d : HostDesc) (args : List CV) (mapping : Option
     | (.ok r, st') => (.ok (s ++ r), st')
     | (.error e, st') => (.error e, st')
   | .field f :: rest, auto, st =>
-    -- `if field_name == '' … elif field_name.isdigit() …` (the WHOLE field name, path included)
-    let numbered : Except Exc (CV × Option Nat) :=
-      if f.name.isEmpty && f.path.isEmpty then
-        match auto with
-        | Option.none => .error "ValueError"
-        | some k => .ok (.int k, some (k + 1))
-      else if allDigits f.name && f.path.isEmpty then
-        match auto with
-        | some (_ + 1) => .error "ValueError"
-        | _ => .ok (.int (digitsToNat f.name), Option.none)
-      else if allDigits f.name then .ok (.int (digitsToNat f.name), auto)
-      else .ok (.str f.name, auto)
-    match numbered with
-    | .error e => (.error e, st)
-    | .ok (key, auto') =>
-      -- `_SafeFormatter.get_field`: refuse underscore attributes before anything is looked up (`safe`)
-      if safe && f.path.any stepIsPrivate then (.error "ParseError", st)
-      else
-        -- `string.Formatter.get_value`: args[key] for ints, kwargs[key] otherwise
-        let first : Except Exc CV :=
-          match key with
-          | .int i =>
-            match args[i.toNat]? with
-            | some v => .ok v
-            | Option.none => .error "IndexError"
-          | k =>
-            match mapping with
-            | Option.none => .error "KeyError"
-            | some m => cvGetitem m k
-        match first with
-        | .error e => (.error e, st)
-        | .ok v =>
-          match walkPath d f.path v st with
-          | (.error e, st') => (.error e, st')
-          | (.ok o, st') =>
-            let txt := if f.conv == some 'r' then cvRepr o else cvStr o
-            match txt with
-            | .error e => (.error e, st')
-            | .ok t =>
-              match renderPieces safe d args mapping rest auto' st' with
-              | (.ok r, st'') => (.ok (t ++ r), st'')
-              | (.error e, st'') => (.error e, st'')
+    match resolveRef safe d args mapping f.ref auto st with
+    | (.error e, st') => (.error e, st')
+    | (.ok (o, auto1), st1) =>
+      match renderSpec safe d args mapping f.spec auto1 st1 with
+      | (.error e, st2) => (.error e, st2)
+      | (.ok (spec, auto2), st2) =>
+        match applySpec o spec with
+        | .error e => (.error e, st2)
+        | .ok t =>
+          match renderPieces safe d args mapping rest auto2 st2 with
+          | (.ok r, st3) => (.ok (t ++ r), st3)
+          | (.error e, st3) => (.error e, st3)
 
 def doFormat (safe : Bool) (d : HostDesc) (fmt : String) (args : List CV) (mapping : Option CV) (st : CState) :
     Except Exc CV × CState :=
